@@ -188,6 +188,7 @@ def _c17():
         ("R-AUTH-SET", "ConnectionState::Authenticated is stored only at accept without password, after a full password equality in AUTH (for the calling connection), or when leaving Blocked", rules_auth.rule_set),
         ("R-AUTH-FAIL", "the failed-AUTH edge performs no state-changing call", rules_auth.rule_fail),
         ("R-AUTH-PWSRC", "the configured password reaches the field the gate and AUTH compare against exactly as written: no case mapping, lossy decoding, replacement or cutting on the (interprocedural) data flow into a password field", rules_auth.rule_pwsrc),
+        ("R-AUTH-FAILCLOSED", "when the configuration file cannot be loaded no server start is reachable on the error edge (the password in it is not silently replaced by the password-less defaults)", rules_auth.rule_config_failclosed),
     ]
 
 
